@@ -23,10 +23,10 @@ ASSUMPTIONS = ["uses the solver's own reported reachability probabilities, as th
 TIMEOUT = 1800
 
 PATTERNS = [(kind, pat) for kind in (PR, P1) for L in range(1, 6) for pat in itertools.product([True, False], repeat=L)]
-TABLE = [("G-CYC", 300), ("G-ACY", 300), ("G-LEX", 150), ("G-TIE", 100), ("G-SLOW", 60), ("G-TINYB", 400), ("G-ACYNF", 200), ("G-CYCNF", 200), ("G-INIT0NF", 100), ("G-DUPL", 200), ("G-MIX", 500), ("G-SMALLX", 300), ("G-TINY", 200), ("G-GAP", 150), ("G-GAPLOOP", 150), ("G-DIGIT", 200)]
+TABLE = [("G-CYC", 300), ("G-ACY", 300), ("G-LEX", 150), ("G-TIE", 100), ("G-SLOW", 60), ("G-TINYB", 400), ("G-ACYNF", 200), ("G-CYCNF", 200), ("G-INIT0NF", 100), ("G-DUPL", 200), ("G-MIX", 500), ("G-SMALLX", 300), ("G-TINY", 200), ("G-GAP", 150), ("G-GAPLOOP", 150), ("G-DIGIT", 200), ("G-FINREP", 200)]
 
 
-def plan(tier, seed):
+def _plan_base(tier, seed):
     ctx = 20 if tier == "quick" else 250
     b = harness.split("G-DEADPAT", len(PATTERNS) * ctx, 124 if tier == "quick" else 1240, ctx=ctx)
     b += harness.split("G-DEADZERO", 62 * (4 if tier == "quick" else 40), 124)
@@ -100,7 +100,16 @@ def decide(gd, idx, cls, pattern=None):
     return res
 
 
+def plan(tier, seed):
+    from . import threads_common
+    return threads_common.plan_threads(tier) + _plan_base(tier, seed)
+
+
 def run_batch(batch):
+    if batch["cls"] == "THREADS":
+        from . import threads_common
+        yield from threads_common.run(batch, PID, ["pruned_lists"], EMIT_START, 'solve', None)
+        return
     monitors.install()
     monitors.MON.flags.update(alias=False)
     cls, seed = batch["cls"], batch["seed"]
@@ -133,6 +142,9 @@ def finish(agg):
 
 
 def replay(case):
+    if "threads" in case:
+        from . import threads_common
+        return threads_common.replay(case, PID, ["pruned_lists"], 'solve', None)
     monitors.install()
     if case.get("repo_tests"):
         return decide_repo_tests()
